@@ -375,6 +375,7 @@ struct FnSys {
         note_case(cx, name(), mshow(m), a, p != nullptr ? mshow(p->m) : std::string());
         g_rec              = CallRec{};
         int expected_calls = 0;
+        (void)registry().take_errors(); // stale entries from rebuilt prefixes were reported when first explored
         switch (a.k) {
         case c_default: {
             cls = "general";
@@ -610,8 +611,9 @@ struct FnSys {
         ceq(cx, "C20", subj, cls, "target invocations during the whole operation", g_rec.calls, expected_calls);
         auto const total = registry().live_count();
         auto const want  = live_of(m) + (p != nullptr ? live_of(p->m) : 0U);
-        if (total != want) {
+        if (first_execution(cx) && total != want) {
             cx.fail("C03", subj, cls + "/live-total", cat("live tracked captures after the operation: ", total, ", expected: ", want, " (a temporary or displaced target was not destroyed)"));
+            purge_outside(s.lo(), s.hi(), p != nullptr ? p->lo() : nullptr, p != nullptr ? p->hi() : nullptr);
         }
     }
 
@@ -634,12 +636,14 @@ struct FnSys {
     void retire(State& s, Cx& cx) const
     {
         if (s.dead) { return; }
+        auto const kase = cat(name(), ": <any history reaching ", mshow(s.m), "> => destroy the function object");
         s.v->~V();
         s.dead = true;
-        drain_lifetimes(cx, "inplace_function::~inplace_function", st(s.m));
+        drain_lifetimes_at_retire(cx, "inplace_function::~inplace_function", st(s.m), kase);
         auto const live = registry().live_in(s.lo(), s.hi());
         if (live != 0) {
-            cx.fail("C03", "inplace_function::~inplace_function", st(s.m) + "/leak", cat(live, " capture(s) still alive after the function object was destroyed"));
+            cx.failed = true;
+            cx.r.violation("C03", "inplace_function::~inplace_function", st(s.m) + "/leak", kase, cat(live, " capture(s) still alive after the function object was destroyed"));
             registry().forget_range(s.lo(), s.hi());
         }
     }
